@@ -623,6 +623,18 @@ def opt_job(frac, entry):
         prof, spec, der = sol['Profiles'], sol['Spectra'], sol['derived_params']
     out = {'names': list(opt.fit_names), 'derived_names': list(opt.derived_names),
            'seen_profiles': seen['profiles'], 'seen_derived': seen['derived']}
+    # everything else stored next to the standard deviations (the profiles of the median solution, the spectra of
+    # the best solution): arrays only, flat names
+    out['stored'] = {}
+    if entry != 'direct':
+        for grp, dct in (('Profiles', prof), ('Spectra', spec)):
+            for k_, v_ in dct.items():
+                if isinstance(v_, dict) or k_ in PROF_KEYS or k_ in SPEC_KEYS:
+                    continue
+                try:
+                    out['stored']['%s/%s' % (grp, k_)] = np.array(v_, dtype=float)
+                except (TypeError, ValueError):
+                    pass
     for k in PROF_KEYS:
         out[k] = np.array(prof[k], dtype=float)
     for k in SPEC_KEYS:
@@ -747,6 +759,14 @@ def opt_case(case):
     proc1 = sorted(set(i for i in [row_index(samples, row) for row in single['seen_profiles']] if i is not None))
     r.check(proc == proc1, 'same-draw-as-single-process', 'opt/sample-subset-differs', got=proc, single=proc1)
 
+    # ---- what is stored next to them: the same on every rank as in the single-process run -------
+    for key in sorted(single.get('stored', {})):
+        sv_ = single['stored'][key]
+        for k, o in enumerate(res.out):
+            gv_ = o.get('stored', {}).get(key)
+            ok_ = gv_ is not None and np.shape(gv_) == np.shape(sv_) and core.close(gv_, sv_, core.RTOL, 0.0)
+            r.check(bool(ok_), 'stored==single-process', 'opt/stored-differs-from-single-process/%s' % key.split('/')[0],
+                    key=key, rank=k, got=gv_, single=sv_, counts=[len(o_['seen_profiles']) for o_ in res.out])
     # ---- standard deviations of profiles and spectra ---------------------------------------
     # (when the partition itself is wrong the statistics below would only repeat that finding)
     for key in (PROF_KEYS + SPEC_KEYS if once_ok['seen_profiles'] else []):
